@@ -4,7 +4,7 @@ D=$(realpath "$1"); P=$2; shift 2
 W=$(/verif/tools/mkwt.sh tryref_${P}_$$)
 if ! git -C $W apply "$D/patch.diff"; then echo "PATCH DOES NOT APPLY"; git -C /repo worktree remove --force $W; exit 2; fi
 echo "== diffstat: $(git -C $W diff --shortstat)"
-echo "== test suite with change: $(cd $W && timeout 1500 /venv/bin/python -m pytest -q -p no:cacheprovider --timeout=900 --continue-on-collection-errors 2>&1 | tail -1)"
+[ -n "$SKIP_SUITE" ] || echo "== test suite with change: $(cd $W && timeout 1500 /venv/bin/python -m pytest -q -p no:cacheprovider --timeout=900 --continue-on-collection-errors 2>&1 | tail -1)"
 echo "== check $P against refactored sources"
 (cd /verif && VERIF_REPO_SRC=$W/src ./check $P --no-evidence "$@" 2>&1 | grep -E "^(VIOLATION|SUMMARY|INCONCLUSIVE|ERROR|VIOLATED)|^    obligation" | cut -c1-260)
 git -C /repo worktree remove --force $W
